@@ -412,3 +412,21 @@ def fftfilter_default(o):
 int main(){ FftFilter f; try { auto y = f.process(arr_cmplx(4)); std::printf("returned %d samples\\n", y.size()); return 1; }
   catch(const std::exception&) { return 0; } }
 '''
+
+
+@adapter(r'_(high|low|band)pass_fir/ensures:linear_phase|_bandstop_fir/ensures:linear_phase')
+def fir1_symmetry(o):
+    """fir1 designs are linear phase: h[k] == h[len-1-k] exactly (mirror construction), for the order of the counterexample
+    and the orders next to it"""
+    m = o['model'] or {}
+    n = I(m, 'n', 6)
+    if not (1 <= n <= 4096):
+        n = 6
+    kind = 'High' if 'high' in o['name'] else ('Low' if 'low' in o['name'] else ('Bandstop' if 'stop' in o['name'] else 'Bandpass'))
+    call = 'fir1(n, 0.37, FilterType::%s)' % kind if kind in ('High', 'Low') else 'fir1(n, 0.21, 0.58, FilterType::%s)' % kind
+    return HDR + '''
+int main(){ for (int n = std::max(1, %d - 2); n <= %d + 3; ++n) { arr_real h = %s;
+    for (int k = 0; k < h.size(); ++k) if (std::fabs(h[k] - h[h.size() - 1 - k]) > 1e-13) {
+      std::printf("order %%d: h[%%d] = %%.6g but h[%%d] = %%.6g\\n", n, k, h[k], h.size() - 1 - k, h[h.size() - 1 - k]); return 1; } }
+  return 0; }
+''' % (n, n, call)
